@@ -1,7 +1,23 @@
 """C09: unit conversions are linear, invertible and physically correct; derived quantities agree with
-their definitions; non-positive speed or distance is rejected."""
+their definitions; non-positive speed or distance is rejected.
+
+What a run does (DESIGN.md 1.1, 1.2, 1.4):
+  1. build the harness against the checkout under test;
+  2. regenerate coq/Gen/UnitTables.v from the Rust unit files (text translator).  If the source no longer has a
+     shape the translator parses, rebuild the table from the BEHAVIOUR of the compiled code (`c09 table`); only
+     if that is impossible too (an arm that is not multiplication/division by one constant) the run fails
+     closed: broken correspondence, no-failing-input-found.  When both routes exist they must agree;
+  3. build Props/C09.vo: the theorems are re-checked against the regenerated table;
+  4. list, inside Coq, the table entries that fail a finite fact of C09 (`UnitsRun.table_failures`);
+  5. stream `spec`: the property judged in Coq (exact rationals) on the IMPLEMENTATION's output for every ordered
+     pair / unit triple -- a failing case is the concrete failing input; every table failure of step 4 that the
+     stream did not already witness is replayed on the implementation through the harness (x = 1.0);
+  6. stream `convert`: real code vs the model in binary64, bit for bit; cases whose bits differ are re-judged in
+     Coq against the exact value of the model (1e-9 relative band, stream `approx`);
+  7. verdict."""
 import json
 import os
+import re
 import struct
 import sys
 
@@ -12,8 +28,9 @@ RULE_CONVERT = (
     "Speed::create (60) and Energy::create (25) x N input pairs, N=200 quick / 1000 thorough, in chunks of 50 per case: "
     "44 boundary values first (0, -0, +-1, 1e+-12, 1e+-300, subnormals, MAX, inf, nan, ...), then random (log-uniform "
     "1e-12..1e12 both signs, arbitrary bit patterns, small integers); the real functions are compared BIT FOR BIT with "
-    "the model evaluated in binary64 on the regenerated table; plus Display names, base and associated units. "
-    "non-trivial = the arm is not the identity (from != to) and the value is finite and non-zero; for the "
+    "the model evaluated in binary64 on the regenerated table (a case whose bits differ is re-judged against the exact "
+    "rational value of the model, 1e-9 relative; 0 such cases on the unchanged tree); plus Display names, base and "
+    "associated units. non-trivial = the arm is not the identity (from != to) and the value is finite and non-zero; for the "
     "constructors: result Ok, finite, non-zero; distinct by (units, input bits)")
 RULE_SPEC = (
     "every ordered pair (77) and every constructor triple (145) x K single inputs (first input 1.0; K=5 quick / 40 thorough, "
@@ -21,6 +38,8 @@ RULE_SPEC = (
     "by the specification in exact rational arithmetic (identity exact, odd and 2-homogeneous exactly, round trip within 0.1 %, "
     "physical SI factor within 0.1 %, constructors within 0.31 % of distance/speed, distance/time, rate*distance, Err for "
     "non-positive speed or distance); non-trivial = from != to, or any constructor case")
+
+ONE_BITS = "0x3ff0000000000000"
 
 
 def classify(case, i, m, s):
@@ -37,31 +56,35 @@ def f64(bits_hex):
     return struct.unpack("<d", struct.pack("<Q", int(bits_hex, 16)))[0]
 
 
-def behaviour_vs_table(chk, binp, parsed, tr):
-    """second route (DESIGN 1.1): factors extracted from the COMPILED code must be the ones the translator
-    read from the source text.  For every ordered pair the harness reports convert(u, v, x) for six probes;
-    the generated entry (Id / Mul k / Div k) must reproduce all of them bit for bit in binary64
-    (python floats are binary64, float(Fraction) is correctly rounded like rustc's literal parsing)."""
+# --------------------------------------------------------------------------- the two routes to Gen/UnitTables.v
+
+def run_table(chk, binp):
+    """`c09 table`: what the compiled code does on 206 fixed probes per ordered pair (+ variants, associated, bases)"""
     out = os.path.join(chk.outdir, "table")
     os.makedirs(out, exist_ok=True)
     rc, log = vf.sh([binp, "table", "--out", out], timeout=300)
-    info = {"pairs": 0, "agree": 0, "disagree": []}
     if rc != 0:
-        info["error"] = log[-800:]
-        return info
-    beh = json.load(open(os.path.join(out, "table.json")))
+        return None, log[-800:]
+    return json.load(open(os.path.join(out, "table.json"))), None
+
+
+def behaviour_vs_table(beh, parsed, tr):
+    """both routes exist: the entry read from the source text (Id / Mul k / Div k) must reproduce every probe
+    observed on the compiled code bit for bit (python floats are binary64, float(Fraction) is correctly rounded
+    like rustc's literal parsing); variants, associated units and base units must be the same"""
+    from fractions import Fraction
+    info = {"pairs": 0, "agree": 0, "disagree": []}
     for fam, t in beh.items():
-        if parsed is None:
+        if fam.startswith("_"):
             continue
         if t["variants"] != parsed["variants"][fam]:
             info["disagree"].append({"family": fam, "harness_variants": t["variants"], "source_variants": parsed["variants"][fam]})
-        table = {k: c for (k, c, _ln) in parsed["tables"][fam]}
+        table = {k: c for (k, c, _ln) in parsed["tables"].get(fam, [])}
         for row in t["rows"]:
             info["pairs"] += 1
             c = table.get((row["from"], row["to"]))
             ok = c is not None
             if ok:
-                from fractions import Fraction
                 k = None if c[0] == "Id" else float(Fraction(c[1]) * Fraction(10) ** c[2])
                 for xb, yb in row["obs"]:
                     x = f64(xb)
@@ -73,79 +96,156 @@ def behaviour_vs_table(chk, binp, parsed, tr):
             else:
                 info["disagree"].append({"family": fam, "from": row["from"], "to": row["to"], "table_entry": list(c) if c else None,
                                          "observed_convert_1.0": f64(row["obs"][0][1])})
+    for name, pairs in beh.get("_associated", {}).items():
+        if [tuple(p) for p in pairs] != [tuple(p) for p in parsed["associated"][name]]:
+            info["disagree"].append({"associated": name, "compiled": pairs, "source": parsed["associated"][name]})
+    for name, b in beh.get("_bases", {}).items():
+        if b != parsed["bases"][name]:
+            info["disagree"].append({"base": name, "compiled": b, "source": parsed["bases"][name]})
     return info
 
 
-def run(chk):
-    chk.coverage["trusted_base"] = [
-        "Coq 8.16.1 kernel + vm_compute",
-        "SPECIFICATION tables in coq/Props/C09.v: exact SI factors (1 mi = 1609.344 m, 1 ft = 0.3048 m, 1 in = 0.0254 m, "
-        "1 lb = 0.45359237 kg, 1 short ton = 907.18474 kg, h/min/s/ms, percent/decimal/per-mille, km/h, mph) and the meaning "
-        "of the five energy-rate units; the energy family has no physical table (fuel equivalences are conventions)",
-        "translator/tr_units.py (output not trusted: the generated table is executed in binary64 against the real functions on "
-        "every run and cross-checked against factors extracted from the compiled code)",
-        "hand-written model coq/Model/Units.v (builders; tied by the correspondence stream)",
-        "reading of the model in exact rationals: rounding, overflow, NaN are outside the theorems (exercised bit-exactly by the stream)",
-        "Rust harness harness/src/bin/c09.rs and this driver"]
-    chk.assumptions = [
-        "theorems are about the real-number reading (Q) of the same model text that is executed in binary64 next to the code",
-        "'physically correct' is judged against the explicit SI table of Props/C09.v; energy (gallons gasoline/diesel <-> kWh) has only linearity, identity and round trip",
-        "accumulated tolerance of a constructor = three factors each within 0.1 % (0.31 %)"]
+# --------------------------------------------------------------------------- failing table entries, computed in Coq
 
-    # ---- tie 1: regenerate coq/Gen/UnitTables.v from the sources (before the proofs are built)
-    tr = load_translator_module()
-    tres = vf.run_translators(which=["units"]).get("units", {"ok": False, "msg": "translator module tr_units.py missing"})
-    parsed = tres.pop("parsed", None)
-    chk.coverage["translator"] = {k: tres.get(k) for k in ("ok", "msg", "digest", "files", "changed")}
-    chk.coverage["source_digest"] = tres.get("digest") or tr.digest(vf.REPO)[0]
-    if not tres.get("ok"):
-        chk.violation("broken-correspondence", "translator", {"translator": "tr_units", "error": tres.get("msg")},
-                      tres.get("msg"), "the unit sources have the shape the translator knows (fail closed)",
-                      detail="coq/Gen/UnitTables.v could not be regenerated; the previous table (if any) is used below",
-                      found=False, key="translator")
+def coq_table_failures(chk):
+    """`UnitsRun.table_failures` over the regenerated table -> list of [fact, family-or-constructor, units...]"""
+    d = os.path.join(chk.outdir, "tablefail")
+    os.makedirs(d, exist_ok=True)
+    p = os.path.join(d, "tablefail.v")
+    open(p, "w").write("From Coq Require Import ZArith List String Floats.\n"
+                       "From RC Require Import Base.Show Base.Num Base.Res Model.Units Model.UnitsRun.\nImport ListNotations.\n"
+                       "Open Scope Z_scope.\nSet Printing Width 1000000.\nSet Printing Depth 1000000.\n"
+                       "Eval vm_compute in (UnitsRun.line_table_failures 0).\n")
+    lines, err = vf.coq_eval_file(p)
+    for ln in lines:
+        if ln.startswith("T 0 ["):
+            body = ln[len("T 0 ["):].rstrip("]")
+            return [x.split(" ") for x in body.split(",") if x], None
+    return None, (err or "no T line")[-600:]
 
-    # ---- proofs
-    chk.proofs(extra_targets=["Model/UnitsRun.vo"])
 
-    binp = vf.build_harness("c09")
-    quick = chk.tier == "quick"
-    only = None
-    if chk.replay:
+def failure_to_case(f):
+    """a failing table entry -> (dedupe key, case description the `spec` stream replays at the witness value 1.0)"""
+    if f[0] in ("identity", "roundtrip", "physical", "positive"):
+        fam, u, v = f[1], f[2], f[3]
+        return "spec-%s-%s-%s" % (fam, u, v), {"family": "convert", "unit_family": fam, "from": u, "to": v, "x": 1.0, "x_bits": ONE_BITS}
+    if f[0] in ("create_time", "create_speed"):
+        return "spec-%s-%s" % (f[0], "-".join(f[1:4])), {"family": f[0], "units": f[1:4], "inputs": [1.0, 1.0],
+                                                        "inputs_bits": [ONE_BITS, ONE_BITS]}
+    if f[0] == "create_energy":
+        return "spec-%s-%s" % (f[0], "-".join(f[1:3])), {"family": f[0], "units": [f[1], f[2], ""], "inputs": [1.0, 1.0],
+                                                        "inputs_bits": [ONE_BITS, ONE_BITS]}
+    return None, None
+
+
+def spec_key(case):
+    if case.get("family") == "convert":
+        return "spec-%s-%s-%s" % (case.get("unit_family"), case.get("from"), case.get("to"))
+    units = [u for u in case.get("units", []) if u]
+    return "spec-%s-%s" % (case.get("family"), "-".join(units))
+
+
+def compare_spec(chk, r):
+    """I ("ok") vs S (the specification's verdict on the implementation's output).  One violation per ordered pair
+    / unit triple (the first input of the stream is 1.0, the canonical witness).  Returns the keys witnessed."""
+    seen = set()
+    I, S = r.impl.get("I", {}), r.model.get("S", {})
+    for e in r.errors:
+        chk.violation("broken-correspondence", "spec", {"file": e["file"]}, e["error"][-800:], "specification evaluates",
+                      detail="harness or coqc failed on this stream", found=False, key="err-spec")
+    for cid, case in r.cases.items():
+        i, s = I.get(cid), S.get(cid)
+        if s is None:
+            if not r.errors:
+                chk.violation("broken-correspondence", "spec", case, i, "<no S line>", found=False, key="err-spec")
+            continue
+        if i == s:
+            continue
+        key = spec_key(case)
+        # a constructor can fail in two ways on different inputs (wrong value / accepts a non-positive input)
+        if case.get("family") != "convert":
+            key += "-" + re.sub(r"[^A-Za-z0-9_=-]", "_", s.split(" ")[-1][:40])
+        seen.add(spec_key(case))
+        chk.violation("impl-counterexample", "spec", case, "implementation returned %s" % json.dumps(case.get("impl")), s,
+                      detail="the specification of C09, evaluated in Coq in exact rational arithmetic on the implementation's "
+                             "output for this input, rejects it (expected verdict: ok)", key=key)
+    return seen
+
+
+def replay_table_failures(chk, binp, fails, seen):
+    """DESIGN 1.4 step 5(d): entries of the regenerated table that fail a finite fact, computed in Coq, replayed on
+    the implementation at x = 1.0 through the harness; the S line decides."""
+    done, n = [], 0
+    for f in fails:
+        key, case = failure_to_case(f)
+        if key is None or key in seen or n >= 8:
+            continue
+        seen.add(key)
+        n += 1
+        d = os.path.join(chk.outdir, "witness%d" % n)
+        os.makedirs(d, exist_ok=True)
+        rp = os.path.join(d, "case.json")
+        json.dump({"case": case, "stream": "spec"}, open(rp, "w"))
+        r = vf.run_stream(binp, "spec", 1, chk.seed, os.path.join(d, "run"), shards=1, replay=rp)
+        i = next(iter(r.impl.get("I", {}).values()), None)
+        s = next(iter(r.model.get("S", {}).values()), None)
+        c = next(iter(r.cases.values()), case)
+        done.append({"entry": " ".join(f), "impl": c.get("impl"), "spec": s})
+        if s is not None and i != s:
+            chk.violation("impl-counterexample", "spec", c, "implementation returned %s" % json.dumps(c.get("impl")), s,
+                          detail="table entry `%s` fails in the regenerated Gen/UnitTables.v (computed in Coq); replayed on the "
+                                 "implementation at the witness value 1.0" % " ".join(f), key=key)
+    return done
+
+
+# --------------------------------------------------------------------------- correspondence with tolerance fallback
+
+def compare_convert(chk, r, binp):
+    """I vs M bit for bit.  Cases whose bits differ are re-judged in Coq against the exact value of the model
+    (stream `approx`): inside the 1e-9 band = corresponding (counted), outside = broken correspondence."""
+    I, M = r.impl.get("I", {}), r.model.get("M", {})
+    for e in r.errors:
+        chk.violation("broken-correspondence", "convert", {"file": e["file"]}, e["error"][-800:], "model evaluates",
+                      detail="harness or coqc failed on this stream", found=False, key="err-convert")
+    differ = []
+    for cid, case in r.cases.items():
+        i, m = I.get(cid), M.get(cid)
+        if m is None and r.errors:
+            continue
+        if i != m:
+            differ.append(case)
+    info = {"bit_exact_cases": len(r.cases) - len(differ), "cases_needing_band": 0, "outside_band": 0}
+    if not differ:
+        return info
+    d = os.path.join(chk.outdir, "approx")
+    os.makedirs(d, exist_ok=True)
+    rp = os.path.join(d, "cases.json")
+    json.dump({"cases": differ}, open(rp, "w"))
+    ra = vf.run_stream(binp, "approx", len(differ), chk.seed, os.path.join(d, "run"), replay=rp)
+    A = ra.model.get("A", {})
+    bad = []
+    for cid, case in ra.cases.items():
+        if (A.get(cid) or "").startswith("ok"):
+            info["cases_needing_band"] += 1
+            if "=" in A[cid]:
+                info["elements_judged_by_class_only"] = info.get("elements_judged_by_class_only", 0) + int(A[cid].rsplit("=", 1)[1])
+        else:
+            bad.append((case, A.get(cid)))
+    info["outside_band"] = len(bad)
+    for case, verdict in bad[:1]:
+        orig = dict(case)
+        orig["id"] = orig.pop("orig_id", orig.get("id"))
+        i, m = I.get(str(orig["id"])), M.get(str(orig["id"]))
         try:
-            only = json.load(open(chk.replay)).get("stream")
-        except Exception:  # noqa
-            only = None
-        if only not in ("convert", "spec"):
-            only = "spec"
-
-    # ---- tie 2: behavioural extraction vs the translated table
-    if not chk.replay:
-        info = behaviour_vs_table(chk, binp, parsed, tr)
-        chk.coverage["behavioural_extraction"] = {k: (v if k != "disagree" else v[:10]) for k, v in info.items()}
-        if info.get("error") or info["disagree"] or (parsed is not None and info["agree"] != info["pairs"]):
-            chk.violation("broken-correspondence", "table", {"disagree": info["disagree"][:10], "error": info.get("error")},
-                          "factors observed on the compiled code differ from the table read from the source text",
-                          "both routes give the same table", detail="translator bug or a source construct it mis-reads",
-                          found=False, key="behaviour-table")
-
-    # ---- the property on the implementation's output (S) -- finds the failing pair with x = 1.0 first
-    if only in (None, "spec"):
-        r = vf.run_stream(binp, "spec", 5 if quick else 40, chk.seed, os.path.join(chk.outdir, "spec"), replay=chk.replay)
-        fix_counts(chk, r, RULE_SPEC)
-        # there is no M line in this stream: compare only I against S
-        vf.compare(chk, r, model_tag="S", classify=classify, binpath=binp)
-
-    # ---- correspondence: real code vs model in binary64 (M)
-    if only in (None, "convert"):
-        r = vf.run_stream(binp, "convert", 200 if quick else 1000, chk.seed, os.path.join(chk.outdir, "convert"), replay=chk.replay)
-        fix_counts(chk, r, RULE_CONVERT)
-        vf.compare(chk, r, classify=classify, binpath=binp)
-
-    if chk.broken_obligation:
-        # a proof obligation no longer checks (Gen/UnitTables.v is regenerated from the source, so a changed
-        # factor lands here); the spec stream above was the search for the failing pair on the implementation
-        chk.violation("broken-obligation", "proofs", {"obligations": chk.broken_obligation}, "does not check", "Qed",
-                      found=False, key="obligation")
+            fi, fm = vf.expand_case(binp, "convert", orig, os.path.join(chk.outdir, "expand"))
+            i, m = fi.get("I", i), fm.get("M", m)
+        except Exception as e:  # noqa
+            vf.log("expand failed", e)
+        chk.violation("broken-correspondence", "convert", orig, i, m,
+                      detail="implementation and model disagree beyond the 1e-9 band (%s; %d such cases); the specification stream "
+                             "decides whether the property itself is violated" % (verdict or ra.errors[:1], len(bad)),
+                      found=False, key="corr-convert")
+    return info
 
 
 def fix_counts(chk, r, rule):
@@ -156,3 +256,129 @@ def fix_counts(chk, r, rule):
     if ev > cases:
         chk.coverage["evaluations"] += ev - cases
         chk.coverage["streams"][r.name]["evaluations"] = ev
+
+
+# --------------------------------------------------------------------------- the check
+
+def run(chk):
+    chk.coverage["trusted_base"] = [
+        "Coq 8.16.1 kernel + vm_compute",
+        "SPECIFICATION in coq/Props/C09.v, module C09Spec: exact SI factors (1 mi = 1609.344 m, 1 ft = 0.3048 m, 1 in = 0.0254 m, "
+        "1 lb = 0.45359237 kg, 1 short ton = 907.18474 kg, h/min/s/ms, percent/decimal/per-mille, km/h, mph), the meaning "
+        "of the five energy-rate units, tolerances 0.1 % and 0.31 %; the energy family has no physical table (fuel equivalences are conventions)",
+        "translator/tr_units.py (output not trusted: the generated table is executed in binary64 against the real functions on "
+        "every run and cross-checked against factors extracted from the compiled code)",
+        "hand-written model coq/Model/Units.v (builders; tied by the correspondence stream)",
+        "reading of the model in exact rationals: rounding, overflow, NaN are outside the theorems (exercised bit-exactly by the stream)",
+        "Rust harness harness/src/bin/c09.rs and this driver"]
+    chk.assumptions = [
+        "theorems are about the real-number reading (Q) of the same model text that is executed in binary64 next to the code",
+        "'physically correct' is judged against the explicit SI table of Props/C09.v; energy (gallons gasoline/diesel <-> kWh) has only linearity, identity and round trip",
+        "accumulated tolerance of a constructor = three factors each within 0.1 % (0.31 %)"]
+
+    if chk.replay:
+        # only stream cases replay alone; a translator / table / proof-obligation report is replayed by the full run
+        try:
+            if json.load(open(chk.replay)).get("stream") not in ("convert", "spec"):
+                chk.replay = None
+        except Exception:  # noqa
+            pass
+
+    tr = load_translator_module()
+    binp = vf.build_harness("c09")
+    gen_dir = os.path.join(vf.COQ, "Gen")
+
+    # ---- tie 1: regenerate coq/Gen/UnitTables.v (before the proofs are built): source text, else behaviour
+    tres = vf.run_translators(which=["units"]).get("units", {"ok": False, "msg": "translator module tr_units.py missing"})
+    parsed = tres.pop("parsed", None)
+    chk.coverage["translator"] = {k: tres.get(k) for k in ("ok", "msg", "digest", "files", "changed")}
+    chk.coverage["source_digest"] = tres.get("digest") or tr.digest(vf.REPO)[0]
+    beh, beh_err = run_table(chk, binp)
+    chk.coverage["table_source"] = "source-text"
+    if not tres.get("ok"):
+        # fail closed only if the behaviour cannot be tabulated either
+        bres, why = None, beh_err
+        if beh is not None:
+            try:
+                bres = tr.generate_from_behaviour(beh, gen_dir)
+            except Exception as e:  # noqa  TranslateError or malformed table.json
+                why = "%s: %s" % (type(e).__name__, e)
+        if bres is not None:
+            parsed = bres["parsed"]
+            chk.coverage["table_source"] = "behaviour"
+            chk.coverage["translator"]["fallback"] = {"reason": tres.get("msg"), "msg": bres["msg"], "approximate_arms": bres["approximate"],
+                                                      "untabulated_arms": bres["untabulated"]}
+            vf.log("translator: %s -> table rebuilt from behaviour (%s)" % (tres.get("msg"), bres["msg"]))
+            if bres["untabulated"]:
+                why = "not multiplication/division by one constant: %s" % bres["untabulated"][:6]
+        if bres is None or bres["untabulated"]:
+            chk.violation("broken-correspondence", "translator",
+                          {"translator": "tr_units", "error": tres.get("msg"), "behavioural_extraction": why},
+                          "%s; behavioural extraction: %s" % (tres.get("msg"), why),
+                          "the unit sources have the shape the translator knows, or every arm behaves as multiplication/division by one constant",
+                          detail="coq/Gen/UnitTables.v could not be regenerated faithfully by either route"
+                                 + ("; the factor observed at 1.0 is used for the arms that could not be tabulated" if bres else
+                                    "; the previous table (if any) is used below"),
+                          found=False, key="translator")
+    elif not chk.replay:
+        # ---- tie 2: both routes exist and must agree
+        if beh is None:
+            info = {"error": beh_err, "pairs": 0, "agree": 0, "disagree": []}
+        else:
+            info = behaviour_vs_table(beh, parsed, tr)
+        chk.coverage["behavioural_extraction"] = {k: (v if k != "disagree" else v[:10]) for k, v in info.items()}
+        if info.get("error") or info["disagree"] or info["agree"] != info["pairs"]:
+            chk.violation("broken-correspondence", "table", {"disagree": info["disagree"][:10], "error": info.get("error")},
+                          "factors observed on the compiled code differ from the table read from the source text",
+                          "both routes give the same table", detail="translator bug or a source construct it mis-reads",
+                          found=False, key="behaviour-table")
+
+    # ---- proofs (Props/C09.vo cone + the runner)
+    chk.proofs(extra_targets=["Model/UnitsRun.vo"])
+
+    quick = chk.tier == "quick"
+    if not quick and not chk.replay and not chk.broken_obligation:
+        # thorough tier: the compiled proofs re-checked by the independent checker
+        rc, out = vf.sh(["coqchk", "-silent", "-o", "-Q", vf.COQ, "RC", "RC.Props.C09"], timeout=1500)
+        chk.coverage["coqchk"] = {"rc": rc, "tail": out[-300:] if rc != 0 else "ok (Props/C09.vo and its dependency cone)"}
+        if rc != 0:
+            chk.violation("broken-obligation", "proofs", {"coqchk": out[-1500:]}, "coqchk rejects Props/C09.vo", "coqchk accepts",
+                          found=False, key="coqchk")
+    only = None
+    if chk.replay:
+        try:
+            only = json.load(open(chk.replay)).get("stream")
+        except Exception:  # noqa
+            only = None
+        if only not in ("convert", "spec"):
+            only = "spec"
+
+    # ---- failing entries of the regenerated table, computed inside Coq
+    fails, ferr = coq_table_failures(chk)
+    chk.coverage["table_failures"] = [" ".join(f) for f in (fails or [])][:40] if fails is not None else {"error": ferr}
+
+    # ---- the property on the implementation's output (S) -- x = 1.0 first for every pair / triple
+    seen = set()
+    if only in (None, "spec"):
+        r = vf.run_stream(binp, "spec", 5 if quick else 40, chk.seed, os.path.join(chk.outdir, "spec"), replay=chk.replay)
+        fix_counts(chk, r, RULE_SPEC)
+        seen = compare_spec(chk, r)
+    if fails and not chk.replay:
+        chk.coverage["table_failures_replayed"] = replay_table_failures(chk, binp, fails, seen)
+
+    # ---- correspondence: real code vs model in binary64 (M), tolerance band as fallback
+    if only in (None, "convert"):
+        r = vf.run_stream(binp, "convert", 200 if quick else 1000, chk.seed, os.path.join(chk.outdir, "convert"), replay=chk.replay)
+        fix_counts(chk, r, RULE_CONVERT)
+        chk.coverage["tolerance_fallback"] = compare_convert(chk, r, binp)
+
+    if chk.broken_obligation:
+        # Gen/UnitTables.v is regenerated from the source, so a changed factor lands here.  The search for the failing
+        # input was: the spec stream on the implementation + the replay of every failing table entry.
+        found = [v for v in chk.violations if v["found_failing_input"]]
+        if found and fails:
+            for v in found:
+                v["detail"] += " | proof obligations that no longer check: " + "; ".join(str(x) for x in chk.broken_obligation)[:1500]
+        else:
+            chk.violation("broken-obligation", "proofs", {"obligations": chk.broken_obligation, "table_failures": chk.coverage["table_failures"]},
+                          "does not check", "Qed", found=False, key="obligation")
